@@ -403,7 +403,7 @@ def doTrafficRoutingX (ops : StratOps S) (P : Option (Provider S G)) (c : XCtx S
     (`stable service of canary service(%s) has no selector, cannot generate the canary service`) — a Service
     without selector cannot be narrowed to a revision.  (A stable Service whose only selector entry is the
     revision label is not nil: the canary Service is created from it.)
-    Before the repair (rollouts commit FIXCOMMIT-selectorless) the function assigned the revision label into the
+    Before the repair (rollouts commit bc46e20) the function assigned the revision label into the
     nil map: `panic: assignment to entry in nil map` (fixed finding `selectorlessStable`). -/
 def refusesBare (ops : StratOps S) (c : XCtx S) (a : Api) (n : XNet G) (bare : Bool) : Bool :=
   bare && c.hasRef && !(ops.noTraffic c.strategy && ops.noMatches c.strategy) &&
@@ -695,7 +695,7 @@ def providerList (p : PCfg) : List (Provider Strat CNet) :=
     The route builders tell the canary backendRef from the stable one by the Service name; without a canary
     Service of its own (`DisableGenerateCanaryService`, `OnlyTrafficRouting`: `getCanaryServiceName` = the stable
     name) the user's own backendRef would be taken for the canary ref — rewritten by a weight step, dropped by
-    `Finalise` (fixed finding `sameServiceGateway`, rollouts commit FIXCOMMIT-sameService). -/
+    `Finalise` (fixed finding `sameServiceGateway`, rollouts commit 978d35f). -/
 def gatewayRefused (p : PCfg) : Bool := p.gateway && RV.Gateway.Conf.refused ⟨p.stable, p.canary⟩
 
 /-- `newNetworkProvider`: `none` = an error is returned (a constructor failed — the Ingress class has no Lua
